@@ -133,6 +133,35 @@ def parseInfer (j : Json) : Except String (Option (List (String × Option Ty))) 
     return some l
   | _ => throw "bad infer"
 
+def pdimJ : PDim → Json
+  | .value n => Json.mkObj [("v", toJson n)]
+  | .param s => Json.mkObj [("p", Json.str s)]
+  | .unset => Json.mkObj []
+
+partial def ptyJ : PTy → Json
+  | .tensor e sh => Json.mkObj [("elem", toJson e),
+      ("shape", match sh with | none => Json.null | some ds => Json.arr (ds.map pdimJ).toArray)]
+  | .seq t => Json.mkObj [("seq", ptyJ t)]
+  | .opt t => Json.mkObj [("opt", ptyJ t)]
+
+def parsePDim (j : Json) : Except String PDim :=
+  match (j.getObjVal? "v").toOption, (j.getObjVal? "p").toOption with
+  | some v, _ => do return .value (← v.getInt?)
+  | none, some p => do return .param (← p.getStr?)
+  | none, none => pure .unset
+
+partial def parsePTy (j : Json) : Except String PTy := do
+  if let .ok e := j.getObjValAs? Nat "elem" then
+    match ← j.getObjVal? "shape" with
+    | .null => return .tensor e none
+    | .arr ds => return .tensor e (some (← ds.toList.mapM parsePDim))
+    | _ => throw "bad proto shape"
+  else if let .ok t := j.getObjVal? "seq" then
+    return .seq (← parsePTy t)
+  else if let .ok t := j.getObjVal? "opt" then
+    return .opt (← parsePTy t)
+  else throw "bad proto type"
+
 def handle (req : Json) : Json :=
   match (do
     let c ← parseCall req
@@ -201,7 +230,20 @@ def handle (req : Json) : Json :=
           pure (lp ++ cp)
         | .error _ => pure []
       | _ => pure []
-    return Json.mkObj (base ++ extra ++ vpExtra ++ suppExtra)) with
+    -- Type._to_onnx / Type._from_onnx
+    let protoExtra ← do
+      let a ← match (req.getObjVal? "to_proto").toOption with
+        | some (.arr ts) => do
+          let l ← ts.toList.mapM parseTy
+          pure [("to_proto", Json.arr (l.map (fun t => ptyJ (toProto t))).toArray)]
+        | _ => pure []
+      let b ← match (req.getObjVal? "from_proto").toOption with
+        | some (.arr ps) => do
+          let l ← ps.toList.mapM parsePTy
+          pure [("from_proto", Json.arr (l.map (fun t => tyJ (fromProto t))).toArray)]
+        | _ => pure []
+      pure (a ++ b)
+    return Json.mkObj (base ++ extra ++ vpExtra ++ suppExtra ++ protoExtra)) with
   | .ok j => j
   | .error e => Json.mkObj [("error", e)]
 
